@@ -3,6 +3,11 @@
 //! docs/AIR.md. It shares no code with /repo: values are serde_json::Value, lenses are plain JSON
 //! navigation, scoping is a map with save/restore. It runs the script once on an omniscient peer
 //! that executes every call immediately through the same deterministic service table.
+//!
+//! Streams are write-only for R (their content depends on the schedule); a canonical stream read into
+//! the fragment (`(ap #c x)`, `#c` as an argument) is an *opaque* value: R knows where it comes from
+//! (its tetraplet) but not what it is. Opaque values flow through ap, lenses and call arguments;
+//! whenever control flow would depend on one, R declares the script unsupported.
 
 use crate::interp::{Req, Tet};
 use crate::script::{Arg, Lens, Node, Out, PeerRef};
@@ -14,8 +19,8 @@ use std::collections::BTreeMap;
 pub struct RCall {
     pub peer: String,
     pub fname: String,
-    pub args: Vec<Option<Value>>,       // None = not compared (error accessors, .length)
-    pub tets: Vec<Option<Vec<Tet>>>,    // None = not compared
+    pub args: Vec<Option<Value>>,    // None = not compared (opaque values, error accessors, .length)
+    pub tets: Vec<Option<Vec<Tet>>>, // None = not compared
 }
 #[derive(Clone, Debug, Default)]
 pub struct RResult {
@@ -25,8 +30,8 @@ pub struct RResult {
 }
 #[derive(Clone, Debug)]
 struct Val {
-    v: Value,
-    tet: Tet,
+    v: Option<Value>, // None = opaque
+    tet: Option<Tet>, // None = unknown origin
 }
 #[derive(Clone, Copy, Debug, PartialEq)]
 enum Flow {
@@ -50,6 +55,7 @@ struct Ev<'a> {
     sc: &'a Scenario,
     ids: &'a [String],
     vars: BTreeMap<String, Val>,
+    canons: BTreeMap<String, String>, // canon name -> designated peer id
     folds: Vec<FoldSt<'a>>,
     out: RResult,
     steps: usize,
@@ -63,11 +69,28 @@ fn lens_text(l: &[Lens]) -> String {
 }
 
 impl<'a> Ev<'a> {
-    fn apply_lens(&self, base: &Val, lens: &[Lens]) -> Res<Val> {
+    fn unsupported(&mut self, why: &str) {
+        if self.out.supported {
+            self.out.supported = false;
+            self.out.why_unsupported = why.to_string();
+        }
+    }
+    fn apply_lens(&mut self, base: &Val, lens: &[Lens]) -> Res<Val> {
         if lens.is_empty() {
             return Res::Ok(base.clone());
         }
-        let mut cur = base.v.clone();
+        let tet = base.tet.clone().map(|mut t| {
+            t.lens = format!("{}{}", t.lens, lens_text(lens));
+            t
+        });
+        let Some(bv) = &base.v else {
+            // opaque: assume the path exists (the generator never puts such a lens where failure would matter)
+            if lens.iter().any(|l| matches!(l, Lens::VarIdx(_))) {
+                self.unsupported("variable index into an opaque value");
+            }
+            return Res::Ok(Val { v: None, tet });
+        };
+        let mut cur = bv.clone();
         for l in lens {
             let next = match l {
                 Lens::Field(f) => cur.get(f.as_str()).cloned(),
@@ -75,8 +98,12 @@ impl<'a> Ev<'a> {
                 Lens::VarIdx(name) => match self.vars.get(name) {
                     None => return Res::Wait,
                     Some(ix) => match &ix.v {
-                        Value::Number(n) => n.as_u64().and_then(|i| cur.as_array().and_then(|a| a.get(i as usize)).cloned()),
-                        Value::String(s) => cur.get(s.as_str()).cloned(),
+                        Some(Value::Number(n)) => n.as_u64().and_then(|i| cur.as_array().and_then(|a| a.get(i as usize)).cloned()),
+                        Some(Value::String(s)) => cur.get(s.as_str()).cloned(),
+                        None => {
+                            self.unsupported("opaque index");
+                            return Res::Wait;
+                        }
                         _ => None,
                     },
                 },
@@ -86,11 +113,15 @@ impl<'a> Ev<'a> {
                 None => return Res::Fail,
             }
         }
-        let mut tet = base.tet.clone();
-        tet.lens = format!("{}{}", tet.lens, lens_text(lens));
-        Res::Ok(Val { v: cur, tet })
+        Res::Ok(Val { v: Some(cur), tet })
     }
-    /// (value, tetraplets); None value = wildcard
+    fn lookup(&mut self, name: &str, lens: &[Lens]) -> Res<Val> {
+        match self.vars.get(name).cloned() {
+            None => Res::Wait,
+            Some(b) => self.apply_lens(&b, lens),
+        }
+    }
+    /// (value, tetraplets); None = not compared
     fn arg(&mut self, a: &Arg) -> Res<(Option<Value>, Option<Vec<Tet>>)> {
         let lit = |v: Value, ids: &[String]| Res::Ok((Some(v), Some(vec![lit_tet(ids)])));
         match a {
@@ -101,35 +132,40 @@ impl<'a> Ev<'a> {
             Arg::InitPeer => lit(Value::String(self.ids[0].clone()), self.ids),
             Arg::Timestamp => lit(serde_json::json!(self.sc.timestamp), self.ids),
             Arg::Ttl => lit(serde_json::json!(self.sc.ttl), self.ids),
-            Arg::Var { name, lens } => match self.vars.get(name).cloned() {
-                None => Res::Wait,
-                Some(b) => match self.apply_lens(&b, lens) {
-                    Res::Ok(v) => Res::Ok((Some(v.v), Some(vec![v.tet]))),
-                    Res::Wait => Res::Wait,
-                    Res::Fail => Res::Fail,
-                },
+            Arg::Var { name, lens } => match self.lookup(name, lens) {
+                Res::Ok(v) => Res::Ok((v.v, v.tet.map(|t| vec![t]))),
+                Res::Wait => Res::Wait,
+                Res::Fail => Res::Fail,
             },
             Arg::ErrCode | Arg::ErrMsg | Arg::LastErrCode | Arg::LastErrMsg | Arg::Length { .. } => Res::Ok((None, None)),
-            Arg::Canon { .. } => {
-                self.out.supported = false;
-                self.out.why_unsupported = "canon argument".into();
-                Res::Ok((None, None))
+            Arg::Canon { name, .. } => {
+                // a canonical stream as an argument: content and per-element origins depend on the schedule
+                if self.canons.contains_key(name) {
+                    Res::Ok((None, None))
+                } else {
+                    Res::Wait
+                }
             }
         }
     }
     fn arg_val(&mut self, a: &Arg) -> Res<Val> {
         match a {
-            Arg::Var { name, lens } => match self.vars.get(name).cloned() {
+            Arg::Var { name, lens } => self.lookup(name, lens),
+            Arg::Canon { name, lens } => match self.canons.get(name).cloned() {
                 None => Res::Wait,
-                Some(b) => self.apply_lens(&b, lens),
+                Some(peer) => {
+                    if lens.is_empty() {
+                        // the whole canonical stream as a scalar: originates at the canon's peer
+                        Res::Ok(Val { v: None, tet: Some(Tet { peer, service: String::new(), function: String::new(), lens: String::new() }) })
+                    } else {
+                        // an element keeps its own origin, which R does not know
+                        Res::Ok(Val { v: None, tet: None })
+                    }
+                }
             },
             other => match self.arg(other) {
-                Res::Ok((Some(v), Some(t))) => Res::Ok(Val { v, tet: t[0].clone() }),
-                Res::Ok(_) => {
-                    self.out.supported = false;
-                    self.out.why_unsupported = "wildcard value used as data".into();
-                    Res::Wait
-                }
+                Res::Ok((Some(v), Some(t))) => Res::Ok(Val { v: Some(v), tet: Some(t[0].clone()) }),
+                Res::Ok(_) => Res::Ok(Val { v: None, tet: None }),
                 Res::Wait => Res::Wait,
                 Res::Fail => Res::Fail,
             },
@@ -138,8 +174,10 @@ impl<'a> Ev<'a> {
     fn eval(&mut self, n: &'a Node) -> Flow {
         self.steps += 1;
         if self.steps > 20000 {
-            self.out.supported = false;
-            self.out.why_unsupported = "step budget".into();
+            self.unsupported("step budget");
+            return Flow::Incomplete;
+        }
+        if !self.out.supported {
             return Flow::Incomplete;
         }
         match n {
@@ -178,7 +216,15 @@ impl<'a> Ev<'a> {
                     Res::Wait => return Flow::Incomplete,
                     Res::Fail => return Flow::Fail,
                 };
-                if (a.v == b.v) == is_match {
+                let (Some(av), Some(bv)) = (&a.v, &b.v) else {
+                    // comparing a value with itself needs no knowledge of it
+                    if l == r {
+                        return if is_match { self.eval(body) } else { Flow::Fail };
+                    }
+                    self.unsupported("match on an opaque value");
+                    return Flow::Incomplete;
+                };
+                if (av == bv) == is_match {
                     self.eval(body)
                 } else {
                     Flow::Fail
@@ -186,9 +232,12 @@ impl<'a> Ev<'a> {
             }
             Node::Ap { src, dst } => {
                 if dst.starts_with('$') || dst.starts_with('%') {
-                    self.out.supported = false;
-                    self.out.why_unsupported = "stream ap".into();
-                    return Flow::Complete;
+                    // stream append: resolve the source (it may wait or fail), the stream itself is write-only for R
+                    return match self.arg_val(src) {
+                        Res::Ok(_) => Flow::Complete,
+                        Res::Wait => Flow::Incomplete,
+                        Res::Fail => Flow::Fail,
+                    };
                 }
                 match self.arg_val(src) {
                     Res::Ok(v) => {
@@ -200,6 +249,9 @@ impl<'a> Ev<'a> {
                 }
             }
             Node::New { var, body } => {
+                if var.starts_with('$') || var.starts_with('%') {
+                    return self.eval(body);
+                }
                 let saved = self.vars.remove(var);
                 let f = self.eval(body);
                 self.vars.remove(var);
@@ -208,20 +260,38 @@ impl<'a> Ev<'a> {
                 }
                 f
             }
+            Node::Canon { peer, dst, .. } => {
+                let peer_id = match peer {
+                    PeerRef::Lit(i) => self.ids[*i].clone(),
+                    PeerRef::Init => self.ids[0].clone(),
+                    PeerRef::Var { .. } => {
+                        self.unsupported("canon with a variable peer");
+                        return Flow::Incomplete;
+                    }
+                };
+                if dst.starts_with('#') {
+                    self.canons.insert(dst.clone(), peer_id);
+                } else {
+                    // canon of a map into a scalar
+                    self.vars.insert(dst.clone(), Val { v: None, tet: None });
+                }
+                Flow::Complete
+            }
             Node::Call { peer, service, fname, args, out } => {
                 let peer_id = match peer {
                     PeerRef::Lit(i) => self.ids[*i].clone(),
                     PeerRef::Init => self.ids[0].clone(),
-                    PeerRef::Var { name, lens } => match self.vars.get(name).cloned() {
-                        None => return Flow::Incomplete,
-                        Some(b) => match self.apply_lens(&b, lens) {
-                            Res::Ok(v) => match v.v.as_str() {
-                                Some(s) => s.to_string(),
-                                None => return Flow::Fail,
-                            },
-                            Res::Wait => return Flow::Incomplete,
-                            Res::Fail => return Flow::Fail,
+                    PeerRef::Var { name, lens } => match self.lookup(name, lens) {
+                        Res::Ok(v) => match v.v {
+                            Some(Value::String(s)) => s,
+                            Some(_) => return Flow::Fail,
+                            None => {
+                                self.unsupported("opaque call target");
+                                return Flow::Incomplete;
+                            }
                         },
+                        Res::Wait => return Flow::Incomplete,
+                        Res::Fail => return Flow::Fail,
                     },
                 };
                 let mut vals = vec![];
@@ -241,29 +311,30 @@ impl<'a> Ev<'a> {
                     return Flow::Incomplete;
                 }
                 self.out.calls.push(RCall { peer: peer_id.clone(), fname: fname.clone(), args: vals.clone(), tets });
-                if vals.iter().any(|v| v.is_none()) {
-                    // the result would depend on a wildcard argument: only possible for probe calls whose output is unused
-                    if !matches!(out, Out::None) {
-                        self.out.supported = false;
-                        self.out.why_unsupported = "wildcard argument feeds a bound result".into();
-                    }
-                    return Flow::Complete;
-                }
-                let rq = Req { service: service.clone(), function: fname.clone(), args: vals.into_iter().map(|v| v.unwrap()).collect(), tets: vec![], arg_hash: String::new() };
-                let (code, text) = serve(self.sc, self.ids, &rq);
-                if code != 0 {
+                let origin = Tet { peer: peer_id, service: service.clone(), function: fname.clone(), lens: String::new() };
+                let failing = fname.starts_with("fail") || matches!(self.sc.svc_faults.get(fname), Some(crate::world::SvcFault::Error(_)) | Some(crate::world::SvcFault::Garbage));
+                if failing {
                     return Flow::Fail;
                 }
-                let Ok(v) = serde_json::from_str::<Value>(&text) else { return Flow::Fail };
-                match out {
-                    Out::Scalar(name) => {
-                        self.vars.insert(name.clone(), Val { v, tet: Tet { peer: peer_id, service: service.clone(), function: fname.clone(), lens: String::new() } });
+                let result: Option<Value> = if vals.iter().all(|v| v.is_some()) {
+                    let rq = Req { service: service.clone(), function: fname.clone(), args: vals.into_iter().map(|v| v.unwrap()).collect(), tets: vec![], arg_hash: String::new() };
+                    let (code, text) = serve(self.sc, self.ids, &rq);
+                    if code != 0 {
+                        return Flow::Fail;
                     }
-                    Out::Stream(_) => {
-                        self.out.supported = false;
-                        self.out.why_unsupported = "stream output".into();
+                    match serde_json::from_str::<Value>(&text) {
+                        Ok(v) => Some(v),
+                        Err(_) => return Flow::Fail,
                     }
-                    Out::None => {}
+                } else if fname.starts_with("peer") {
+                    // does not depend on the arguments
+                    let rq = Req { service: service.clone(), function: fname.clone(), args: vec![], tets: vec![], arg_hash: String::new() };
+                    serde_json::from_str::<Value>(&serve(self.sc, self.ids, &rq).1).ok()
+                } else {
+                    None // the result embeds an opaque argument
+                };
+                if let Out::Scalar(name) = out {
+                    self.vars.insert(name.clone(), Val { v: result, tet: Some(origin) });
                 }
                 Flow::Complete
             }
@@ -271,26 +342,25 @@ impl<'a> Ev<'a> {
                 let base = match iterable {
                     Arg::Var { name, lens } => {
                         if name.starts_with('$') || name.starts_with('%') {
-                            self.out.supported = false;
-                            self.out.why_unsupported = "stream fold".into();
+                            self.unsupported("stream fold");
                             return Flow::Incomplete;
                         }
-                        match self.vars.get(name).cloned() {
-                            None => return Flow::Incomplete,
-                            Some(b) => match self.apply_lens(&b, lens) {
-                                Res::Ok(v) => v,
-                                Res::Wait => return Flow::Incomplete,
-                                Res::Fail => return Flow::Fail,
-                            },
+                        match self.lookup(name, lens) {
+                            Res::Ok(v) => v,
+                            Res::Wait => return Flow::Incomplete,
+                            Res::Fail => return Flow::Fail,
                         }
                     }
                     _ => {
-                        self.out.supported = false;
-                        self.out.why_unsupported = "fold over non-scalar".into();
+                        self.unsupported("fold over a canonical stream");
                         return Flow::Incomplete;
                     }
                 };
-                let Some(arr) = base.v.as_array().cloned() else { return Flow::Fail };
+                let Some(bv) = &base.v else {
+                    self.unsupported("fold over an opaque value");
+                    return Flow::Incomplete;
+                };
+                let Some(arr) = bv.as_array().cloned() else { return Flow::Fail };
                 if arr.is_empty() {
                     return Flow::Complete;
                 }
@@ -298,9 +368,11 @@ impl<'a> Ev<'a> {
                     .into_iter()
                     .enumerate()
                     .map(|(i, v)| {
-                        let mut t = base.tet.clone();
-                        t.lens = format!("{}.$.[{i}]", t.lens);
-                        Val { v, tet: t }
+                        let t = base.tet.clone().map(|mut t| {
+                            t.lens = format!("{}.$.[{i}]", t.lens);
+                            t
+                        });
+                        Val { v: Some(v), tet: t }
                     })
                     .collect();
                 let saved = self.vars.remove(it);
@@ -316,8 +388,7 @@ impl<'a> Ev<'a> {
             }
             Node::Next(it) => {
                 let Some(pos) = self.folds.iter().rposition(|f| f.it == *it) else {
-                    self.out.supported = false;
-                    self.out.why_unsupported = "next without fold".into();
+                    self.unsupported("next without fold");
                     return Flow::Incomplete;
                 };
                 let (idx, len, body, last) = {
@@ -340,9 +411,8 @@ impl<'a> Ev<'a> {
                     Flow::Complete
                 }
             }
-            Node::ApMap { .. } | Node::Canon { .. } | Node::Raw(_) => {
-                self.out.supported = false;
-                self.out.why_unsupported = "outside the fragment".into();
+            Node::ApMap { .. } | Node::Raw(_) => {
+                self.unsupported("outside the fragment");
                 Flow::Complete
             }
         }
@@ -351,7 +421,15 @@ impl<'a> Ev<'a> {
 
 pub fn evaluate(sc: &Scenario, ids: &[String]) -> RResult {
     let ast = sc.ast.clone();
-    let mut ev = Ev { sc, ids, vars: BTreeMap::new(), folds: vec![], out: RResult { calls: vec![], supported: true, why_unsupported: String::new() }, steps: 0 };
+    let mut ev = Ev {
+        sc,
+        ids,
+        vars: BTreeMap::new(),
+        canons: BTreeMap::new(),
+        folds: vec![],
+        out: RResult { calls: vec![], supported: true, why_unsupported: String::new() },
+        steps: 0,
+    };
     let _ = ev.eval(&ast);
     ev.out
 }
